@@ -121,6 +121,42 @@ def record_case(cid, T, ops, mods, seed, origin='tlc', shuffle=True, exotic=True
     atoms = treeio.Atoms(seed, exotic=exotic, protect=protect)
     root = treeio.build(_join_labels(T), mods, atoms, rnd if shuffle else None)
     root.data['sid'] = 1
+    # provenance / history: every fifth tree comes out of the tool's own export reader, is kept, and waits while
+    # another (tiny) treebank is opened and read - node identity and node data must not depend on what else
+    # was read in the meantime
+    other_reader = seed % 5 == 1 and all(x['a'].get('head', '~') == '~' and x['a'].get('split', '~') == '~'
+                                         for x in T['nodes']) \
+        and [x for x in T['nodes'] if x['d'] == 0][0]['a']['lab'] in ('VROOT', list('VROOT'))
+    if other_reader:
+        import copy
+        import os as _os
+        import tempfile as _tf
+        from . import fam_io
+        d_ = _tf.mkdtemp(prefix='vf_tfr_')
+        try:
+            T1 = copy.deepcopy(_join_labels(copy.deepcopy(T)))
+            for x in T1['nodes']:
+                for f_ in ('lemma', 'morph', 'edge'):
+                    if x['a'].get(f_, '~') == '~':
+                        x['a'][f_] = '--'
+                if x['tok']:
+                    x['a']['word'] = atoms.conc(x['a']['word'], 'word')
+            fn_ = _os.path.join(d_, 'kept.export')
+            with open(fn_, 'w', encoding='utf-8') as f_:
+                f_.write(fam_io.render_export(T1, 1, False, random.Random(seed)))
+            with contextlib.redirect_stdout(io.StringIO()), contextlib.redirect_stderr(io.StringIO()):
+                root = list(mods['treeinput'].export(fn_, 'utf-8', quiet=True))[0]
+                fo_ = _os.path.join(d_, 'other.brackets')
+                with open(fo_, 'w') as f2_:
+                    f2_.write('(S (T a))\n')
+                list(mods['treeinput'].brackets(fo_, 'utf-8'))
+        except Exception:
+            other_reader = False
+            root = treeio.build(_join_labels(T), mods, atoms, rnd if shuffle else None)
+            root.data['sid'] = 1
+        finally:
+            import shutil as _sh
+            _sh.rmtree(d_, ignore_errors=True)
     # provenance: every fifth tree has been written once before it is transformed (a script that saves the
     # original first); the export writer leaves its node numbering in the node data of every constituent
     prewritten = seed % 5 == 3
@@ -183,7 +219,8 @@ def record_case(cid, T, ops, mods, seed, origin='tlc', shuffle=True, exotic=True
         while len(g['nodes']) < n:
             g['nodes'].append(dead_record(dmp))
     return {'id': cid, 'origin': origin, 'init': G0, 'events': events,
-            'wc': [[w, list(c)] for (w, c) in wc], 'sibling_first': seed % 2 == 1, 'prewritten': prewritten}
+            'wc': [[w, list(c)] for (w, c) in wc], 'sibling_first': seed % 2 == 1, 'prewritten': prewritten,
+            'other_reader': other_reader}
 
 
 def dead_record(dmp):
